@@ -89,10 +89,15 @@ def build(ctx, F, fn_name="animate"):
         for e in p.events:
             if e["kind"] == "store" and e["cell"] == r.cell and e["path"] == (("field", R["pos"]),):
                 v = e["value"]
+                old, inc = None, None
                 if v[0] == "call" and (v[1] == "<core::time::Duration as core::ops::arith::Add>::add" or
-                                       v[1].endswith("Duration::saturating_add")) and v[2][0] == f0("pos"):
+                                       v[1].endswith("Duration::saturating_add")) and len(v[2]) == 2:
+                    old, inc = v[2]
+                if v[0] == "bin" and v[1] == "Add":     # the engine's model of Add::add on Duration
+                    old, inc = v[2], v[3]
+                if old == f0("pos"):
                     r.add_stores.append({"callee": "<core::time::Duration as core::ops::arith::AddAssign>::add_assign",
-                                         "descs": (("&mut", f0("pos")), v[2][1]), "seq": e["seq"], "store": e})
+                                         "descs": (("&mut", f0("pos")), inc), "seq": e["seq"], "store": e})
         r.adds = r.adds + r.add_stores
         fin = eng.read_loc(p, r.cell, (("field", R["state"]),))
         r.final = pse.unit_variant(fin)[1] if pse.unit_variant(fin) else (r.s0 if fin == f0("state") else None)
